@@ -266,6 +266,14 @@ func elemState(j gen.Jet) string {
 
 func sign(v float64) string {
 	switch {
+	case math.IsNaN(v):
+		return "NaN"
+	case math.IsInf(v, 1):
+		return "+Inf"
+	case math.IsInf(v, -1):
+		return "-Inf"
+	case v == 0 && math.Signbit(v):
+		return "-0"
 	case v < 0:
 		return "-"
 	case v > 0:
